@@ -47,7 +47,14 @@ def run(ctx):
             t.add_file(sub + "/clean.gz", fc.gz(5))
             t.add_file(sub + "/clean.a", fc.ar([("x.o/", 5, 0, 0, 100644, b"ab")]))
             if has_err:
-                t.add_file(sub + "/short.gz", b"\x1f\x8b\x08")          # io error while reading the header -> Error
+                # files a handler fails on, for different reasons: all count as errors, none as unsupported
+                k = (i // 4) % 3
+                if k == 0:
+                    t.add_file(sub + "/short.gz", b"\x1f\x8b\x08")          # io error while reading the header
+                elif k == 1:
+                    t.add_file(sub + "/badsize.a", b"!<arch>\n" + b"x.o/            0           0     0     100644  12xx      `\nabcd")      # a size field that is no number
+                else:
+                    t.add_file(sub + "/cutdata.a", fc.ar([("x.o/", 5, 0, 0, 100644, b"abcdefgh")])[:-5])      # member data shorter than announced
             if has_uns:
                 # files a handler refuses as not being of its format, for different stated reasons: all count as unsupported, none as an error
                 k = i % 4
